@@ -412,6 +412,10 @@ package state
 //@ pure holdersOnlyLost() bool = forall k string :: T_kvs(k) != nil && T_kvs(k).Session != "" ==> old(T_kvs(k)) != nil && old(T_kvs(k).Session) == T_kvs(k).Session
 //@ pure sessionsOnlyRemoved() bool = forall id string :: T_sessions(id) == nil || T_sessions(id) == old(T_sessions(id))
 //@ pure linksOnlyRemoved() bool = forall k string :: T_session_checks(k) == nil || T_session_checks(k) == old(T_session_checks(k))
+//@ pure linksGoneWithSession() bool = forall k string :: old(T_session_checks(k)) != nil && T_session_checks(k) == nil ==> T_sessions(old(T_session_checks(k).Session)) == nil
+//@ pure sessionCheckOf(c *structs.HealthCheck, node string, name string) bool = c != nil && c.PeerName == "" && strLower(c.Node) == strLower(node) && c.Type == "session" && c.Definition.SessionName == name
+//@ pure linkOfCheck(m *sessionCheck, node string, check string) bool = m != nil && strLower(m.Node) == strLower(node) && strLower(string(m.CheckID.ID)) == strLower(check)
+//@ pure boundSessionsGone(node string, check string) bool = forall k string :: old(linkOfCheck(T_session_checks(k), node, check)) ==> T_sessions(old(T_session_checks(k).Session)) == nil
 //@ pure queriesOnlyRemoved() bool = forall k string :: T_prepared_queries(k) == nil || T_prepared_queries(k) == old(T_prepared_queries(k))
 
 // two-state: the checks table holds the same keys as before, and the row under each key still names the same
@@ -434,8 +438,13 @@ package state
 //@ ensures[queries-only-removed] queriesOnlyRemoved()
 //@ ensures[checks-only-replaced] checksKeepIdentity()
 //@ ensures[sessions-only-removed] sessionsOnlyRemoved()
+//@ ensures[links-gone-with-their-session] linksGoneWithSession()
+//@ ensures[critical-session-check-invalidates-bound-sessions] err == nil && checkState == api.HealthCritical ==> forall j int :: 0 <= j && j < itLen(iter) && sessionCheckOf(itElem(iter, j).(*structs.HealthCheck), session.Node, session.Name) ==> boundSessionsGone(itElem(iter, j).(*structs.HealthCheck).Node, string(itElem(iter, j).(*structs.HealthCheck).CheckID))
 //@ ensures[catalog-parents-untouched] (forall k string :: T_nodes(k) == old(T_nodes(k))) && (forall k string :: T_services(k) == old(T_services(k)))
 //@ modifies T.sessions, T.kvs, T.tombstones, T.session_checks, T.prepared-queries, T.index, T.checks, map:s.lockDelay.delay
+//@ loop 1 invariant[links-gone-with-their-session] linksGoneWithSession()
+//@ loop 1 invariant[existing-check-objects-keep-their-identity-fields] forall c *structs.HealthCheck :: c != nil && !fresh(c) ==> c.Node == old(c.Node) && c.PeerName == old(c.PeerName) && c.Type == old(c.Type) && c.CheckID == old(c.CheckID) && c.Definition.SessionName == old(c.Definition.SessionName)
+//@ loop 1 invariant[processed-critical-checks-done] checkState == api.HealthCritical ==> forall j int :: 0 <= j && j < ite(check != nil, itPos(iter) - 1, itPos(iter)) && sessionCheckOf(itElem(iter, j).(*structs.HealthCheck), session.Node, session.Name) ==> boundSessionsGone(itElem(iter, j).(*structs.HealthCheck).Node, string(itElem(iter, j).(*structs.HealthCheck).CheckID))
 //@ loop 1 invariant[sessions-only-removed] sessionsOnlyRemoved()
 //@ loop 1 invariant[pos] 0 <= itPos(iter) && itPos(iter) <= itLen(iter)
 //@ loop 1 invariant[cursor] (check != nil ==> itPos(iter) >= 1 && check == itElem(iter, itPos(iter)-1)) && (check == nil ==> itPos(iter) == itLen(iter))
@@ -459,6 +468,7 @@ package state
 //@ ensures[links-only-removed] linksOnlyRemoved()
 //@ ensures[queries-only-removed] queriesOnlyRemoved()
 //@ ensures[sessions-only-removed] sessionsOnlyRemoved()
+//@ ensures[links-gone-with-their-session] linksGoneWithSession()
 //@ ensures[locks-gone] err == nil && old(T_sessions(sessionID)) != nil ==> noLocksOf(sessionID)
 //@ ensures[check-links-gone] err == nil && old(T_sessions(sessionID)) != nil ==> noCheckLinksOf(sessionID)
 //@ ensures[queries-gone] err == nil && old(T_sessions(sessionID)) != nil ==> noQueriesOf(sessionID)
@@ -479,6 +489,10 @@ package state
 //@ loop 2 invariant[holders-only-lost] holdersOnlyLost()
 //@ loop 3 invariant[holders-only-lost] holdersOnlyLost()
 //@ loop 5 invariant[links-only-removed] linksOnlyRemoved()
+//@ loop 5 invariant[links-gone-with-their-session] linksGoneWithSession()
+//@ loop 5 invariant[listed-links-are-this-sessions] forall j int :: 0 <= j && j < len(objs) ==> objs[j].(*sessionCheck) != nil && strLower(objs[j].(*sessionCheck).Session) == strLower(sessionID)
+//@ loop 6 invariant[links-gone-with-their-session] linksGoneWithSession()
+//@ loop 7 invariant[links-gone-with-their-session] linksGoneWithSession()
 //@ loop 7 invariant[queries-only-removed] queriesOnlyRemoved()
 //@ loop 4 invariant[locks-gone] noLocksOf(sessionID)
 //@ loop 5 invariant[locks-gone] noLocksOf(sessionID)
@@ -621,7 +635,6 @@ package state
 
 // ---- C04/C07: writing a health check. Parents must exist; a check that is (or defaults to) critical
 // invalidates every session bound to it in the same transaction.
-//@ pure linkOfCheck(m *sessionCheck, node string, check string) bool = m != nil && strLower(m.Node) == strLower(node) && strLower(string(m.CheckID.ID)) == strLower(check)
 
 //@ func checkSessionsTxn
 //@ props C04
@@ -650,7 +663,9 @@ package state
 //@ ensures[check-stored] rerr == nil ==> checkAt(hc.Node, string(hc.CheckID), hc.PeerName) != nil
 //@ ensures[status-defaults-to-critical] rerr == nil ==> hc.Status != ""
 //@ ensures[parents-untouched] (forall k string :: T_nodes(k) == old(T_nodes(k))) && (forall k string :: T_services(k) == old(T_services(k)))
-//@ ensures[critical-check-invalidates-sessions] rerr == nil && hc.Status == api.HealthCritical && hc.PeerName == "" ==> forall k string :: old(linkOfCheck(T_session_checks(k), hc.Node, string(hc.CheckID))) ==> T_sessions(old(T_session_checks(k).Session)) == nil
+//@ ensures[critical-check-invalidates-sessions] rerr == nil && hc.Status == api.HealthCritical && hc.PeerName == "" ==> boundSessionsGone(hc.Node, string(hc.CheckID))
+//@ ensures[status-kept-unless-empty] old(hc.Status) != "" ==> hc.Status == old(hc.Status)
+//@ ensures[links-gone-with-their-session] linksGoneWithSession()
 //@ ensures[no-session-created] forall id string :: old(T_sessions(id)) == nil ==> T_sessions(id) == nil
 //@ ensures[other-checks-keep-identity] forall k string :: (T_checks(k) == nil || T_checks(k) != checkAt(hc.Node, string(hc.CheckID), hc.PeerName)) ==> checkIdentityKept(k)
 //@ ensures[this-check-new-or-as-before] checkAt(hc.Node, string(hc.CheckID), hc.PeerName) == hc || checkAt(hc.Node, string(hc.CheckID), hc.PeerName) == nil || (old(checkAt(hc.Node, string(hc.CheckID), hc.PeerName)) != nil && checkAt(hc.Node, string(hc.CheckID), hc.PeerName).PeerName == old(checkAt(hc.Node, string(hc.CheckID), hc.PeerName).PeerName) && checkAt(hc.Node, string(hc.CheckID), hc.PeerName).Node == old(checkAt(hc.Node, string(hc.CheckID), hc.PeerName).Node) && checkAt(hc.Node, string(hc.CheckID), hc.PeerName).CheckID == old(checkAt(hc.Node, string(hc.CheckID), hc.PeerName).CheckID) && checkAt(hc.Node, string(hc.CheckID), hc.PeerName).ServiceID == old(checkAt(hc.Node, string(hc.CheckID), hc.PeerName).ServiceID))
@@ -666,6 +681,7 @@ package state
 //@ loop 1 invariant[parents-untouched] (forall k string :: T_nodes(k) == old(T_nodes(k))) && (forall k string :: T_services(k) == old(T_services(k)))
 //@ loop 1 invariant[checks-keep-identity] checksKeepIdentity()
 //@ loop 1 invariant[nothing-given] holdersOnlyLost() && linksOnlyRemoved() && queriesOnlyRemoved() && sessionsOnlyRemoved()
+//@ loop 1 invariant[links-gone-with-their-session] linksGoneWithSession()
 //@ loop 1 invariant[node-present] old(nodeAt(hc.Node, hc.PeerName)) != nil && (hc.ServiceID != "" ==> old(T_services(NodeServiceQuery{Node: hc.Node, Service: hc.ServiceID, PeerName: hc.PeerName})) != nil)
 // removing a health check: the row is gone, nothing else leaves the catalog, and (for local checks) every session
 // bound to the check is invalidated in the same transaction
